@@ -447,6 +447,10 @@ class SigmaCorrelationRule(SigmaRuleBase, ProcessingItemTrackingMixin):
 
     def __post_init__(self: Self) -> None:
         super().__post_init__()
+        if self.errors:
+            # Errors were collected while the rule was parsed: it is already known to be invalid
+            # and may be incomplete, so the consistency checks below can't be applied.
+            return
         # Validate rules is not None unless extended correlation condition is defined
         if self.rules is None and not isinstance(self.condition, SigmaExtendedCorrelationCondition):
             raise sigma_exceptions.SigmaCorrelationRuleError(
@@ -543,6 +547,8 @@ class SigmaCorrelationRule(SigmaRuleBase, ProcessingItemTrackingMixin):
                         f"'{ correlation_type }' is no valid Sigma correlation type", source=source
                     )
                 )
+                if not isinstance(correlation_type, str):
+                    correlation_type = None
         else:  # no correlation type provided
             errors.append(
                 sigma_exceptions.SigmaCorrelationTypeError(
@@ -705,17 +711,33 @@ class SigmaCorrelationRule(SigmaRuleBase, ProcessingItemTrackingMixin):
         ):
             rules = None
 
-        return cls(
-            type=correlation_type,
-            rules=rules,
-            generate=generate,
-            timespan=timespan,
-            group_by=group_by,
-            aliases=aliases,
-            condition=condition,
-            errors=errors,
-            **kwargs,
-        )
+        try:
+            return cls(
+                type=correlation_type,
+                rules=rules,
+                generate=generate,
+                timespan=timespan,
+                group_by=group_by,
+                aliases=aliases,
+                condition=condition,
+                errors=errors,
+                **kwargs,
+            )
+        except sigma_exceptions.SigmaError as e:
+            if not collect_errors:
+                raise
+            # consistency check of the rule object failed: collect the error as well
+            return cls(
+                type=correlation_type,
+                rules=rules,
+                generate=generate,
+                timespan=timespan,
+                group_by=group_by,
+                aliases=aliases,
+                condition=condition,
+                errors=[*errors, e],
+                **kwargs,
+            )
 
     @classmethod
     def from_yaml(cls, rule: str, collect_errors: bool = False) -> Self:
